@@ -126,21 +126,6 @@ func New(choices []int) *Sched {
 	}
 }
 
-func gid() int64 {
-	var buf [64]byte
-	n := runtime.Stack(buf[:], false)
-	// "goroutine 123 ["
-	s := buf[10:n]
-	var id int64
-	for _, c := range s {
-		if c < '0' || c > '9' {
-			break
-		}
-		id = id*10 + int64(c-'0')
-	}
-	return id
-}
-
 // Go starts fn as a controlled thread. It parks before running fn.
 func (s *Sched) Go(name string, fn func()) *Thread {
 	s.mu.Lock()
